@@ -1487,10 +1487,15 @@ impl<'a> Exec<'a> {
         if child {
             self.child_verify(o)?;
         }
-        let db = match abyssiniandb::open_file(&self.ctx.dir) {
+        // both constructors are in use: open_file() at the start, FileDb::open() at reopens at odd op positions
+        let r = if i % 2 == 1 { abyssiniandb::filedb::FileDb::open(&self.ctx.dir) } else { abyssiniandb::open_file(&self.ctx.dir) };
+        let db = match r {
             Ok(d) => d,
             Err(err) => fail!("error", o, "open_file at reopen: {err}"),
         };
+        if db.path() != self.ctx.dir {
+            fail!("mismatch", o, "FileDb::path() = {:?}, opened {:?}", db.path(), self.ctx.dir);
+        }
         self.dbs.push(db);
         for mi in 0..self.maps.len() {
             let (name, kt) = (self.maps[mi].name.clone(), self.maps[mi].kt);
